@@ -68,6 +68,25 @@ func c02Eval(s []byte) (diag, sig string, valid bool) {
 	if (rf.V2019 && int(h.ProtocolVersion) != 3) || (!rf.V2019 && int(h.ProtocolVersion) != 2) {
 		return bad("ProtocolVersion", h.ProtocolVersion, rf.V2019)
 	}
+	// the message decoded from the PREVIOUS accepted frame of this worker (its own message value, its own input slice)
+	// must still read as that frame now that another frame has been decoded: body, and the phone digits Encode writes
+	if c02Prev != nil {
+		pm, pf, praw := c02Prev, c02PrevRef, c02PrevRaw
+		c02Prev = nil
+		if !bytes.Equal(pm.Body, pf.Body) {
+			return fmt.Sprintf("the message decoded from %s had body %s; after decoding the next frame %s its body reads %s", hx(praw), hx(pf.Body), hx(s), hx(pm.Body)), "earlier-message-changed:body", true
+		}
+		if bytes.IndexByte(praw, 0x7d) >= 0 {
+			var enc []byte
+			if p := vc.Catch(func() { enc = pm.Header.Encode(pm.Body) }); p == "" {
+				if ef, err := ref.Decode(enc); err != nil || !bytes.Equal(ef.PhoneBCD, pf.PhoneBCD) {
+					return fmt.Sprintf("the message decoded from %s, re-encoded after the next frame %s was decoded, gives %s (phone digits differ or undecodable: %v)", hx(praw), hx(s), hx(enc), err), "earlier-message-changed:phone", true
+				}
+			}
+		}
+	}
+	c02Prev, c02PrevRef, c02PrevRaw = m, &ref.Frame{Header: rf.Header, Body: bytes.Clone(rf.Body)}, bytes.Clone(s)
+	c02PrevRef.PhoneBCD = bytes.Clone(rf.PhoneBCD)
 	// the same frame through ONE message value and ONE buffer that have decoded every earlier accepted frame of this
 	// worker (a connection's read buffer and a re-used JTMessage): phone, ID, serial and body must be this frame's
 	if c02Reused == nil {
@@ -92,8 +111,11 @@ func c02Eval(s []byte) (diag, sig string, valid bool) {
 }
 
 var (
-	c02Reused *jt808.JTMessage
-	c02Shared []byte
+	c02Reused  *jt808.JTMessage
+	c02Shared  []byte
+	c02Prev    *jt808.JTMessage
+	c02PrevRef *ref.Frame
+	c02PrevRaw []byte
 )
 
 func init() {
